@@ -29,16 +29,9 @@ sys.path.insert(0, os.path.join(os.path.dirname(__file__), "..", "lib"))
 sys.path.insert(0, os.path.dirname(__file__))
 from vlib import GO_SUM_MOD, REPO, MachineryError, main, tree_hash, write_files  # noqa: E402
 from c07 import (LAB, MOD, node_paths, par_map, rec_pkg_config, rec_project_events, rec_root_config,  # noqa: E402
-                 corrupt_case, run_bin, tick, tlc_job, validate_with_selftest)
+                 corrupt_case, final_coverage_zero, run_bin, tick, tlc_job, validate_with_selftest)
 
-PROBE = """{{- /* C06 probe: everything whose order could leak a map order */ -}}
-pkgname {{ .PkgName }} src {{ .SrcPkgQualifier }}
-imports:{{ range .Imports }} {{ .Path }}={{ .Qualifier }}{{ end }}
-filedata: {{ printf "%v" .TemplateData }}
-{{- range .Interfaces }}
-{"iface":{{ printf "%q" .Name }},"struct":{{ printf "%q" .StructName }},"marker":{{ printf "%q" (printf "%v" (index .TemplateData "marker")) }},"data":{{ printf "%q" (printf "%v" .TemplateData) }},"methods":[{{ range .Methods }}{{ printf "%q" .Name }},{{ end }}""]}
-{{- end }}
-"""
+PROBE = (Path(__file__).resolve().parent.parent / "probes" / "select" / "order.templ").read_text()
 SCHEMA_A = {"$schema": "http://json-schema.org/draft-07/schema#", "type": "object"}
 SCHEMA_B = {"$schema": "http://json-schema.org/draft-07/schema#", "type": "object", "required": ["need"]}
 
@@ -55,7 +48,7 @@ BUILTIN = [
     {"name": "matryer-inpackage-goimports", "template": "matryer", "dir": "{{.InterfaceDir}}", "pkgname": "{{.SrcPackageName}}",
      "suffix": ".go", "formatter": "goimports"},
     {"name": "testify-inpackage-noop", "template": "testify", "dir": "{{.InterfaceDir}}", "pkgname": "{{.SrcPackageName}}",
-     "suffix": ".go", "formatter": "noop"},
+     "suffix": ".go", "formatter": "noop", "data": {"unroll-variadic": True}},
 ]
 
 
@@ -346,7 +339,7 @@ def run(ctx):
     elif not r.ok:
         raise MachineryError("TLC failed on Order:\n" + r.tail())
     if thorough:
-        z = [ln for ln in r.coverage_zero() if "Order" in ln or "Recursive" in ln]
+        z = final_coverage_zero(r, ["Order", "Recursive"])
         if z:
             raise MachineryError(f"vacuous: actions never taken: {z}")
     uniq = {}
